@@ -1166,6 +1166,203 @@ def check_order(item, seed=0):
     return t
 
 
+# ============================================================================= copies / alternative constructors
+# Every way of obtaining a second Ptychography object from a built one.  (i) The second object, at the ground truth, predicts
+# the simulated data (all four losses ~0, a probe perturbation raises them), and copying leaves the original intact.
+# (ii) ISOLATION: dataset-level / model-level changes applied to ONE of the two (perturbed probe, shifted scan positions through
+# the public setter, other slice thicknesses, object-model swap, preprocess with another padding; applied one after the other)
+# leave the OTHER predicting its data at its own ground truth -- judged after every change, in both directions.
+# The data set is FILE-BACKED (Dataset4dstem.save -> load -> public file_path setter), as save() without raw data needs.
+COPY_KINDS = ("clone", "from_ptychography", "save_with_raw_data+from_file", "save_without_raw_data+from_file(path)",
+              "save_without_raw_data+from_file(path,dset=fresh)", "copy.deepcopy")
+COPY_CHANGES = ("perturbed_probe", "shifted_scan_positions", "other_slice_thicknesses", "object_model_swap", "preprocess_other_padding")
+COPY_BASES = [  # pad (9,11) is adjusted by the library (to (11,14)), pad (3,6) is already aligned
+    dict(obj_type="complex", slices=1, modes=2, roi=[8, 10], scan=[2, 3], step="fractional", pad=[9, 11], learn_scan_positions=True),
+    dict(obj_type="potential", slices=3, modes=1, roi=[8, 8], scan=[2, 3], step="fractional", pad=[9, 11], learn_scan_positions=False),
+    dict(obj_type="complex", slices=3, modes=2, roi=[8, 8], scan=[2, 3], step="fractional", pad=[3, 6], learn_scan_positions=True),
+    dict(obj_type="potential", slices=1, modes=1, roi=[8, 10], scan=[2, 3], step="fractional", pad=[3, 6], learn_scan_positions=False),
+    dict(obj_type="pure_phase", slices=3, modes=1, roi=[8, 10], scan=[2, 3], step="fractional", pad=[9, 11], learn_scan_positions=True),
+    dict(obj_type="complex", slices=1, modes=1, roi=[8, 8], scan=[2, 3], step="commensurate", pad=[9, 11], learn_scan_positions=False),
+    dict(obj_type="potential", slices=1, modes=2, roi=[8, 8], scan=[2, 3], step="fractional", pad=[3, 6], learn_scan_positions=True),
+    dict(obj_type="pure_phase", slices=3, modes=2, roi=[8, 10], scan=[2, 3], step="fractional", pad=[3, 6], learn_scan_positions=False),
+]
+
+
+def copy_items(tier, start):
+    nb = 4 if tier == "quick" else len(COPY_BASES)
+    items = []
+    for b in range(nb):
+        for k in COPY_KINDS:
+            for who in ("copy", "original"):
+                items.append({"index": start + len(items), "base": b, "kind": k, "changed": who})
+    return items
+
+
+def run_copy_case(item, seed=0):
+    import contextlib
+    import copy as _copy
+    import io
+    import os
+    import tempfile
+
+    import torch
+
+    from quantem.diffractive_imaging.object_models import ObjectPixelated
+    from quantem.diffractive_imaging.ptychography import Ptychography
+
+    base = COPY_BASES[item["base"]]
+    kind, who = item["kind"], item["changed"]
+    fails, seen = [], set()
+    rec = {"index": item["index"], "item": {k: v for k, v in item.items() if k != "index"}}
+
+    def fail(cls, msg):
+        k = json.dumps(cls, sort_keys=True)
+        if k not in seen:
+            seen.add(k)
+            fails.append((cls, msg))
+
+    def quiet(fn, *a, **k):
+        with contextlib.redirect_stdout(io.StringIO()):
+            return fn(*a, **k)
+
+    c = PT.normalise(base)
+    geo = PT.geometry(c)
+    J = geo.num_patterns
+    full = np.arange(J)
+    sd = [int(seed), 2, 600 + item["base"]]
+
+    def judge(q, label, cls):
+        """q: Problem wrapper of the instance to be judged at the ground truth against the simulated data."""
+        data = q.intensities
+        mean_I = float(data.sum() / J)
+        out = {}
+        for lt in PT.LOSS_TYPES:
+            q.set_loss_type(lt)
+            if "pred" not in out:
+                with torch.no_grad():
+                    out["pred"] = q.predict(full)
+                pn = out["pred"].detach().cpu().numpy().astype(float)
+                d = float(np.abs(pn - data).max() / data.max()) if pn.shape == data.shape and np.isfinite(pn).all() else float("inf")
+                rec["pred_rel"] = max(rec.get("pred_rel", 0.0), d)
+                if not d <= TOL["pred_rel"]:
+                    fail(dict(cls, what="predicted_equals_simulated"), f"{label}: max |predicted - simulated| / max = {d:.3g} > {TOL['pred_rel']:g}")
+            L = float(q.loss(out["pred"], full, lt))
+            out[lt] = L
+            z = L / PT.ref_loss(np.zeros_like(data), data, lt, J, mean_I)
+            if not z <= TOL["zero"][lt]:
+                fail(dict(cls, what="loss_zero_at_truth"), f"{label}: {lt} = {L:.4g} = {z:.3g} x the loss of an all-zero prediction")
+        return out
+
+    stage = "build"
+    try:
+        with tempfile.TemporaryDirectory(prefix="c02copies-") as td:
+            pr = PT.build(base, np.random.default_rng(sd + [0]), data_file=os.path.join(td, "scan.zip"))
+            truth_probe = pr.install_order(pr.probe_true)
+            stage = f"copy via {kind}"
+            path = os.path.join(td, "recon.zip")
+            try:
+                if kind == "clone":
+                    other = pr.ptycho.clone()
+                elif kind == "from_ptychography":
+                    if not hasattr(Ptychography, "from_ptychography"):
+                        rec["not_supported"] = "no Ptychography.from_ptychography"
+                        return rec, fails
+                    other = Ptychography.from_ptychography(pr.ptycho)
+                    other.probe_model.probe = truth_probe.astype(np.complex64)  # reset_recon() went back to the starting probe
+                elif kind == "save_with_raw_data+from_file":
+                    quiet(pr.ptycho.save, path, mode="o", save_raw_data=True, verbose=0)
+                    other = quiet(Ptychography.from_file, path)
+                elif kind == "save_without_raw_data+from_file(path)":
+                    quiet(pr.ptycho.save, path, mode="o", verbose=0)  # the default: raw data not stored
+                    other = quiet(Ptychography.from_file, path, verbose=0)
+                elif kind == "save_without_raw_data+from_file(path,dset=fresh)":
+                    quiet(pr.ptycho.save, path, mode="o", verbose=0)
+                    other = quiet(Ptychography.from_file, path, dset=pr.fresh_dataset())
+                elif kind == "copy.deepcopy":
+                    try:
+                        other = _copy.deepcopy(pr.ptycho)
+                    except Exception as e:  # not every configuration supports deepcopy (learnable positions): counted
+                        rec["not_supported"] = f"copy.deepcopy raises {type(e).__name__}"
+                        return rec, fails
+                else:
+                    raise ValueError(kind)
+            except Exception as e:
+                tb = traceback.format_exc().strip().splitlines()
+                if not [ln for ln in tb if "/quantem/" in ln]:
+                    raise
+                fail({"relation": "copy_predicts_its_data", "kind": kind, "what": "copy_raises"}, f"base {base}: {kind}: {type(e).__name__}: {str(e)[:300]}")
+                return rec, fails
+            if other is pr.ptycho:
+                fail({"relation": "copy_predicts_its_data", "kind": kind, "what": "same_object"}, f"{kind} returned the original object itself")
+                return rec, fails
+            A, B = pr, pr.wrap(other)
+            # ---------------------------------------------------------------- (i) the copy predicts the data; the original still does
+            stage = "judge copy"
+            outB = judge(B, f"base {base}: the object obtained by {kind}, at the ground truth", {"relation": "copy_predicts_its_data", "kind": kind})
+            stage = "judge original after copying"
+            judge(A, f"base {base}: the ORIGINAL after {kind}", {"relation": "copy_predicts_its_data", "kind": kind, "object": "original"})
+            if not fails:
+                B.set_probe(pr.install_order(PT.perturb_probe(pr.probe_true, c, geo, "mode_amp")))
+                for lt in PT.LOSS_TYPES:
+                    B.set_loss_type(lt)
+                    with torch.no_grad():
+                        Lp = float(B.loss(B.predict(full), full, lt))
+                    ratio = Lp / max(outB[lt], 1e-30)
+                    if not ratio >= TOL["ratio"][lt[:2]]:
+                        fail({"relation": "copy_predicts_its_data", "kind": kind, "what": "loss_larger_when_perturbed"}, f"base {base}: copy by {kind}: {lt} with a perturbed probe {Lp:.4g} vs {outB[lt]:.4g} at the truth: ratio {ratio:.3g}")
+                B.set_probe(truth_probe)
+            if fails:
+                return rec, fails  # isolation is only meaningful for a copy that works
+            # ---------------------------------------------------------------- (ii) isolation
+            X, Y = (B, A) if who == "copy" else (A, B)  # X is changed, Y must not notice
+            newpad = [int(c["pad"][0]) + 5, int(c["pad"][1]) + 2]
+            g2 = PT.geometry(PT.normalise(dict(base, pad=newpad)))
+            for change in COPY_CHANGES:
+                stage = f"change {change} on the {who}"
+                if change == "perturbed_probe":
+                    X.set_probe(1.3 * truth_probe)
+                elif change == "shifted_scan_positions":
+                    X.ptycho.dset.scan_positions_px = X.ptycho.dset.scan_positions_px.detach().cpu().numpy().astype(np.float32) + 1.0
+                elif change == "other_slice_thicknesses":
+                    if c["slices"] == 1:
+                        continue
+                    X.ptycho.slice_thicknesses = [150.0 - 35.0 * s for s in range(c["slices"] - 1)]
+                elif change == "object_model_swap":
+                    X.set_object(PT.perturb_object(pr.obj_true, c, geo, "noise", np.random.default_rng(sd + [3])))
+                elif change == "preprocess_other_padding":
+                    S = c["slices"]
+                    arr = np.zeros((S, *g2.obj_shape), np.float32) + 0.7 if c["obj_type"] == "potential" else np.ones((S, *g2.obj_shape), np.complex64)
+                    X.ptycho.obj_model = ObjectPixelated.from_array(arr, obj_type=c["obj_type"], slice_thicknesses=(c["thicknesses"] if S > 1 else None), rng=1)
+                    X.ptycho.preprocess(obj_padding_px=tuple(newpad), plot_rotation=False, plot_com=False)
+                stage = f"judge the {'original' if who == 'copy' else 'copy'} after {change} on the {who}"
+                judge(Y, f"base {base}: {kind}; after '{change}' on the {who}, the {'ORIGINAL' if who == 'copy' else 'COPY'} at its own ground truth",
+                      {"relation": "copies_are_isolated", "kind": kind, "change": change, "changed": who})
+                rec["changes_applied"] = rec.get("changes_applied", 0) + 1
+    except Exception as e:
+        tb = traceback.format_exc().strip().splitlines()
+        src = [ln.strip() for ln in tb if "/quantem/" in ln]
+        if not src:
+            raise
+        fail({"relation": "copies_are_isolated" if stage.startswith(("change", "judge the")) else "copy_predicts_its_data", "kind": kind, "what": "pipeline_raises"},
+             f"base {base}: {stage}: {type(e).__name__}: {str(e)[:200]} @ {src[-1][-160:]}")
+    return rec, fails
+
+
+def check_copy(item, seed=0):
+    t = Tally()
+    rec, fails = run_copy_case(item, seed=seed)
+    key = {k: v for k, v in item.items() if k != "index"}
+    t.case(key=key, nontrivial=not rec.get("not_supported"), outcome=(item["kind"], item["changed"], rec.get("not_supported"), rec.get("changes_applied")))
+    t.extra["copy_cases"] += 1
+    t.extra["copy_kinds_not_supported_in_this_configuration"] += int(bool(rec.get("not_supported")))
+    t.extra["copy_isolation_judgements"] += rec.get("changes_applied", 0)
+    for cls, msg in fails:
+        t.fail(cls, dict(key, index=item["index"], family="copies"), msg)
+    if item["index"] % 17 == 0:
+        t.sample({"case": key, "max_rel_pred_error": rec.get("pred_rel"), "isolation_judgements": rec.get("changes_applied"), "not_supported": rec.get("not_supported")})
+    return t
+
+
 # ----------------------------------------------------------------------------- driver
 def run(ctx):
     items, alph = lattice(ctx.tier)
@@ -1238,6 +1435,19 @@ def run(ctx):
     )
     if om.extra["thickness_cases_distinct_values_not_ascending"] < 20 or om.extra["order_cases_pattern_order"] < 10:
         raise Broken("vacuous ordered-configuration exploration")
+    citems = copy_items(ctx.tier, start=len(hitems) + len(ritems) + len(oitems))
+    cm = ctx.pmap(check_copy, citems, chunk=1, label="copies / alternative constructors", seed=ctx.seed)
+    ctx.coverage.update(
+        evaluations=int(ctx.coverage["evaluations"]) + int(cm.n),
+        distinct_nontrivial=int(ctx.coverage["distinct_nontrivial"]) + len(cm.nontrivial),
+        copies={"kinds": list(COPY_KINDS), "changes": list(COPY_CHANGES), "directions": ["copy changed, original judged", "original changed, copy judged"],
+                "base_configurations": COPY_BASES[: 4 if ctx.quick else len(COPY_BASES)], "cases": len(citems),
+                "isolation_judgements": int(cm.extra["copy_isolation_judgements"]),
+                "kind_not_supported_in_configuration": int(cm.extra["copy_kinds_not_supported_in_this_configuration"]),
+                "file_backed_dataset": "Dataset4dstem.save -> load -> file_path setter"},
+    )
+    if cm.extra["copy_isolation_judgements"] < 3 * len(citems) and not cm.nfails:
+        raise Broken("vacuous copies exploration")
     if hm.extra["refused_requests_issued_and_refused"] < len(REFUSED_OPS):
         raise Broken("vacuous refused-request exploration: hardly any request was refused")
     if hm.extra["histories_ending_in_the_data_configuration"] < 10 or len(hm.outcomes) < 8:
@@ -1254,6 +1464,14 @@ def run(ctx):
 
 
 def replay(ctx, case):
+    if case.get("family") == "copies":
+        rec, fails = run_copy_case({k: v for k, v in case.items() if k != "family"}, seed=ctx.seed)
+        for k in ("item", "pred_rel", "changes_applied", "not_supported"):
+            if k in rec:
+                print(f"  {k}: {rec[k]}")
+        for cls, msg in fails:
+            ctx.fail(cls, case, msg)
+        return
     if case.get("family") == "ordered_configuration":
         item = {k: v for k, v in case.items() if k != "family"}
         rec, fails = run_order_case(item, seed=ctx.seed)
